@@ -1517,3 +1517,30 @@ Proof.
     rewrite Hs1. eexists. split; [reflexivity|]. constructor; [cbn; auto|exact Hs2].
   - destruct Hrest as [-> _]. cbn [with_subaxes]. eexists. split; [reflexivity|]. constructor; [cbn; auto|constructor].
 Qed.
+
+(* ================================================================== extensions across saves *)
+Lemma first_cifti_none exts : forallb (fun e => negb (is_cifti_ext e)) exts = true -> forall x,
+  first_cifti_ext (exts ++ [(32, x)]) = Some x.
+Proof.
+  induction exts as [|e r IH]; cbn; intros H x; [reflexivity|].
+  apply andb_true_iff in H as [H1 H2]. destruct (is_cifti_ext e); [discriminate|]. now apply IH.
+Qed.
+
+(* whatever extensions the NIfTI header carried (old CIFTI-2 XML included), after a save the
+   file holds exactly one CIFTI-2 extension, it is the XML of the image being saved, the
+   reader finds it, and the other extensions are kept in order; so any history of saves
+   ends with the XML of the last image *)
+Lemma save_replaces_cifti_ext exts xml :
+  first_cifti_ext (set_cifti_ext exts xml) = Some xml
+  /\ filter is_cifti_ext (set_cifti_ext exts xml) = [(32, xml)]
+  /\ filter (fun e => negb (is_cifti_ext e)) (set_cifti_ext exts xml)
+     = filter (fun e => negb (is_cifti_ext e)) exts.
+Proof.
+  unfold set_cifti_ext. split; [|split].
+  - apply first_cifti_none. apply forallb_forall. intros e He. now apply filter_In in He.
+  - rewrite filter_app. cbn. replace (filter is_cifti_ext (filter (fun e => negb (is_cifti_ext e)) exts)) with (@nil nifti_ext); [reflexivity|].
+    induction exts as [|e r IH]; cbn; [reflexivity|]. destruct (is_cifti_ext e) eqn:E; cbn; [exact IH|]. now rewrite E.
+  - rewrite filter_app. cbn. rewrite app_nil_r.
+    induction exts as [|e r IH]; cbn; [reflexivity|]. destruct (is_cifti_ext e) eqn:E; cbn; [exact IH|]. rewrite E. cbn. now rewrite IH.
+Qed.
+
